@@ -444,3 +444,18 @@ def random_params(rnd: random.Random, tier: str, **over: Any) -> Dict[str, Any]:
         p.update(n_steps=rnd.choice([3, 5, 8]), ops_per_step=rnd.choice([(8, 16), (10, 25)]), max_depth=rnd.choice([3, 5, 7]))
     p.update(over)
     return p
+
+
+def scaled_files(files: Dict[str, Any], unit: float) -> Dict[str, Any]:
+    """The same trace recorded at sub-microsecond resolution: every ts / dur multiplied by a dyadic constant (exact in
+    doubles).  Loaded with HTA_DISABLE_NS_ROUNDING=1 the time columns are float and edge weights fractional."""
+    import copy
+
+    out = copy.deepcopy(files)
+    for tr in out.values():
+        for e in tr["traceEvents"]:
+            if isinstance(e, dict):
+                for k in ("ts", "dur"):
+                    if isinstance(e.get(k), (int, float)) and not isinstance(e.get(k), bool):
+                        e[k] = e[k] * unit
+    return out
